@@ -9,8 +9,9 @@ import Model.Space
 samplers), `Space.rvs` (flat path: one child stream per dimension; ConfigSpace path);
 `deephyper/hpo/_random.py`: `RandomSearch._ask` (fill inactive hyperparameters).
 
-The code as it is **after** the `fix:` commits of branch `fix-g4` (normalized integer-uniform
-and categorical dimensions sample from their prior; the weights of a categorical are kept).
+The code as it is on `/repo` main, i.e. **after** the `fix:` commits 5b1cf8d (normalized
+integer-uniform and categorical dimensions sample from their prior) and 1879100 (the weights of a
+categorical are kept).
 
 Randomness is an explicit argument: a sampler is a function of the *draw* the NumPy/SciPy
 generator hands to it — a uniform number `u` (with the scale `s` that `_uniform_inclusive` uses,
@@ -258,6 +259,23 @@ def addHyperparameter (R : Rat → Rat) (space : List CsHp) (value : Shorthand) 
     if space.any (fun g => g.name == h.name) then .error .alreadyExists
     else .ok (insertByName h space)
 
+/-! ### executable checker: is a sampled point allowed by the declarations, name by name? -/
+
+/-- value AND Python kind allowed by the declaration.  `loose`: on ConfigSpace's own paths a
+numeric ordinal comes back NumPy-coerced (`1` as `1.0`): compared with Python `==` there. -/
+def legalValue (loose : Bool) : CsHp → Val → Bool
+  | .uniformInt _ lo hi _, .int i => decide (lo ≤ i) && decide (i ≤ hi)
+  | .uniformFloat _ lo hi _, .num q => decide (lo ≤ q) && decide (q ≤ hi)
+  | .categorical _ choices _, v => decide (v ∈ choices)
+  | .ordinal _ seq, v => if loose then seq.any (Val.pyEq v) else decide (v ∈ seq)
+  | .constant _ c, v => decide (v = c)
+  | _, _ => false
+
+/-- `row[i]` is legal for `hps[i]` (the hyperparameters in the order of
+`problem.hyperparameter_names`), and there is exactly one value per hyperparameter -/
+def checkPoint (loose : Bool) (hps : List CsHp) (row : List Val) : Bool :=
+  all2 (legalValue loose) hps row
+
 /-! ### per-dimension samplers -/
 
 /-- what the random generator hands to the sampler -/
@@ -324,6 +342,33 @@ def sampleNormalizedOld (L E : Rat → Rat) (d : Dim) (q : Rat) : Except Err Val
   | .error e => .error e
   | .ok [v] => .ok v
   | .ok _ => .error .indexError
+
+/-! ### the laws of the integer log-uniform samplers, as cells of the value before rounding -/
+
+/-- flat path (`Integer(prior="log-uniform")`, both transforms): `round(clip(base ** a))`; the
+values rounded to `k` are those of `[k - 1/2, k + 1/2] ∩ [low, high]` -/
+def flatCell (lo hi k : Int) : Rat × Rat :=
+  (if (k : Rat) - 1 / 2 < (lo : Rat) then (lo : Rat) else (k : Rat) - 1 / 2,
+   if (hi : Rat) < (k : Rat) + 1 / 2 then (hi : Rat) else (k : Rat) + 1 / 2)
+
+/-- ConfigSpace's `quantize(x, bounds=(low, high), bins=high-low+1)` of a value `x` of `[low, high]`
+(`functional.quantize`: `floor(unitnorm * bins).clip(0, bins - 1)`), as the integer it stands for -/
+def csQuantize (lo hi : Int) (x : Rat) : Int :=
+  let bins : Int := hi - lo + 1
+  let level := ((x - (lo : Rat)) / ((hi : Rat) - (lo : Rat)) * (bins : Rat)).floor
+  lo + (if level < 0 then 0 else if bins - 1 < level then bins - 1 else level)
+
+/-- ConfigSpace's sampler of `UniformIntegerHyperparameter(log=True)` (ConfigSpace path,
+`RandomSearch`): `u ↦ quantize_log`: lift `u` to `[ln low, ln high]`, exponentiate, quantize into
+`high - low + 1` equal bins of `[low, high]` (`L = ln`, `E = exp`).  ConfigSpace is an external
+library: this function is its *model*, compared with `hp.sample_value` under a scripted stream. -/
+def csIntLogSample (L E : Rat → Rat) (lo hi : Int) (u : Rat) : Int :=
+  csQuantize lo hi (E (L (lo : Rat) + u * (L (hi : Rat) - L (lo : Rat))))
+
+/-- bin `j` of ConfigSpace's quantisation: `[low + j·w, low + (j+1)·w)`, `w = (high-low)/(high-low+1)` -/
+def csCell (lo hi j : Int) : Rat × Rat :=
+  let w : Rat := ((hi : Rat) - (lo : Rat)) / (((hi - lo + 1 : Int)) : Rat)
+  ((lo : Rat) + (j : Rat) * w, (lo : Rat) + ((j : Rat) + 1) * w)
 
 /-- `Space.rvs`, flat path: dimension `j` is sampled from its own child stream
 (`draws[j]`, one draw per sample); result rows are the samples -/
